@@ -64,7 +64,8 @@ class CancelWorkflowHandler(StabilizeHandler[CancelWorkflow], _ControlHandler):
     Execution flow:
     1. If the execution is already complete, consume idempotently.
     2. Persist the cancellation flag (is_canceled, canceled_by, reason).
-    3. Push CancelStage for every incomplete top-level stage and a
+    3. Push CancelStage for every incomplete stage (synthetic before/after
+       children included - CancelStage does not cascade) and a
        CompleteWorkflow to drive final status determination, atomically
        with message deduplication.
     """
@@ -107,7 +108,11 @@ class CancelWorkflowHandler(StabilizeHandler[CancelWorkflow], _ControlHandler):
             self.repository.cancel(execution.id, user, reason)
             execution.cancel(user, reason)
 
-            to_cancel = [s for s in execution.top_level_stages() if not s.status.is_complete]
+            # Every incomplete stage, not only the top-level ones: CancelStage
+            # does not cascade, so a pre-declared before/after stage that has
+            # not started yet would otherwise stay NOT_STARTED forever in a
+            # CANCELED workflow.
+            to_cancel = [s for s in execution.stages if not s.status.is_complete]
 
             with self.repository.transaction(self.queue) as txn:
                 if message.message_id:
